@@ -8,9 +8,24 @@ from .common import MachineryError
 LAZY = ["covalent_radius", "crystal_structure", "neutron", "xray", "K_alpha", "magnetic_ff"]
 
 EVENTS = ("pub_lazy", "new_T", "T_groups", "new_T2")
+# two more events, used in fixed paths only (they customise data, so the table they touch is no longer
+# swept; every OTHER table must still serve exactly the embedded tables):
+#   T_custom   assign to / mutate in place the per-atom data of every group of T
+#   pub_custom customise masses, densities and abundances of the public table (as the guide describes)
 
 QUICK_PATHS = [(), ("pub_lazy",), ("new_T",), ("pub_lazy", "new_T"), ("new_T", "new_T2"),
-               ("new_T", "T_groups", "new_T2", "pub_lazy")]
+               ("new_T", "T_groups", "new_T2", "pub_lazy"),
+               ("new_T", "T_groups", "T_custom", "new_T2", "pub_lazy"),
+               ("pub_lazy", "new_T", "T_groups", "T_custom"),
+               ("pub_custom", "new_T", "T_groups")]
+
+CUSTOMISED = {"T_custom": "T", "pub_custom": "public"}      # event -> table whose values are no longer judged
+
+
+def judged_tables(path, live):
+    """live: [(label, table)] -> those whose data no event of the path customised."""
+    skip = set(CUSTOMISED[e] for e in path if e in CUSTOMISED)
+    return [(l, t) for l, t in live if l not in skip]
 
 
 def all_paths():
@@ -46,6 +61,22 @@ def apply_event(pt, ev, tables, tag):
         mass.init(T)
         density.init(T)
         tables[ev[4:]] = T
+    elif ev == "T_custom":
+        T = tables["T"]
+        T.Fe._mass = 1.0; T.H._density = 9.0; T.Fe[56]._mass = 55.0; T.U[238]._abundance = 1.0
+        T.Fe.covalent_radius = 9.99; T.Cu.covalent_radius_uncertainty = 0.5
+        T.Fe.crystal_structure['a'] = 99.0; T.Cu.crystal_structure = {'symmetry': 'verif'}
+        T.Fe.neutron.b_c = 99.0; T.Ni[58].neutron.absorption = 1e3; T.Sm.neutron.nsf_table[1][0] = 7.0
+        T.Li[6].neutron.bp_i = 5.0; T.H.neutron.b_c_complex = 1j; T.H[1].nuclear_spin = '9/2'
+        T.Fe[58].neutron_activation[0].thermalXS = 99.0
+        T.Fe.xray.newfield = 5; T.Cu.xray.sftable[1][10] = 1234.5
+        T.Cu.K_alpha = 9.99; T.Fe.K_beta1 = 8.88
+        T.Fe.magnetic_ff[2].j0 = (1.0, 0.0, 0.0, 0.0, 0.0, 0.0, 0.0); T.Ni.magnetic_ff[9] = T.Fe.magnetic_ff[3]
+        del T.Co.magnetic_ff[2].j4
+    elif ev == "pub_custom":
+        P = pt.elements
+        P.H._mass = 1.0; P.H._mass_unc = 0.5; P.Fe[56]._mass = 55.0; P.Fe._density = 1.0; P.U[238]._abundance = 50.0
+        P.Ar._mass_unc = 1.0; P.O[18]._abundance = 3.0; P.Og._density = 2.0
     elif ev == "T_groups":
         T = tables["T"]
         from periodictable import nsf, xsf, covalent_radius, crystal_structure, magnetic_ff, activation
@@ -64,6 +95,13 @@ def snippet(path, label, code):
             lines.append("getattr(pt.elements.Fe[56], 'neutron_activation', None)")
         elif ev in ("new_T", "new_T2"):
             lines.append("X = core.PeriodicTable(%r); mass.init(X); density.init(X); tables[%r] = X" % (ev, ev[4:]))
+        elif ev == "T_custom":
+            lines.append("X = tables['T']; X.Fe._mass = 1.0; X.H._density = 9.0; X.Fe.covalent_radius = 9.99; "
+                         "X.Fe.crystal_structure['a'] = 99.0; X.Fe.neutron.b_c = 99.0; X.Sm.neutron.nsf_table[1][0] = 7.0; "
+                         "X.Cu.K_alpha = 9.99; X.Fe.magnetic_ff[2].j0 = (1.0, 0, 0, 0, 0, 0, 0); del X.Co.magnetic_ff[2].j4  # ... (mc/configs.py)")
+        elif ev == "pub_custom":
+            lines.append("P = pt.elements; P.H._mass = 1.0; P.H._mass_unc = 0.5; P.Fe[56]._mass = 55.0; P.Fe._density = 1.0; "
+                         "P.U[238]._abundance = 50.0; P.Ar._mass_unc = 1.0; P.O[18]._abundance = 3.0; P.Og._density = 2.0")
         elif ev == "T_groups":
             lines.append("from periodictable import nsf, xsf, covalent_radius, crystal_structure, magnetic_ff, activation")
             lines.append("X = tables['T']; nsf.init(X); xsf.init(X); xsf.init_spectral_lines(X); covalent_radius.init(X); "
